@@ -197,6 +197,10 @@ def templates(W, tier, rng):
         for k in (KINDS[:-1] if cast not in ('string_bool', 'array_bool') else ['param']):
             for pos in (('value', 'branch', 'defeat') if cast.endswith('_bool') else ('value',)):
                 yield dict(fam='cast', cast=cast, k=k, pos=pos, W=W)
+        if cast in ('int_byte', 'int_byte_int', 'narrow_store', 'narrow_elem', 'narrow_arg', 'int_bool', 'bool_int', 'bool_byte'):
+            # the same cast applied to every boundary literal (folded by the compiler, specified identically)
+            for li in range(len(lits(W, 'int'))):
+                yield dict(fam='cast', cast=cast, k='lit', li=li, pos='value', W=W)
     # short-circuit with a faulting right operand
     for op in ('and', 'or'):
         for pos in ('value', 'branch', 'defeat'):
@@ -242,6 +246,8 @@ def make(task):
     arrays = {}
 
     def opnd(name, typ, kind):
+        if kind == 'lit' and 'li' in task:
+            return Opnd(name, typ, kind, lits(W, typ)[task['li']])
         return Opnd(name, typ, kind, rng.choice(lits(W, typ)) if kind == 'lit' else None)
 
     if fam in ('arith', 'cmp'):
